@@ -138,6 +138,12 @@ def oracle(c, items, out):
         return 'a non-library exception left the generator (after %d items)' % len(items), counters
     if out == 'limit':
         return 'the generator yields more items than the stream has messages', counters
+    if c.ignore and any(d is not None and d[0].startswith(TOLERANT) for d in c.dmg):
+        # ignore_value_expectation gives up the check that a message ends in `7777`: a message whose section length
+        # was raised is then "decoded" beyond its end and swallows the start of the next one.  That is what the
+        # option means, not a loss of isolation; such scans are compared with the model and the fresh Decoder only.
+        counters.append('lenient-scan-with-length-fault:model-only')
+        return None, counters
     ioffs = locate_items(c.s, items)
     by_off = {o: i for i, o in enumerate(c.offs)}
     delivered = {}
@@ -243,10 +249,15 @@ def signature(c, why):
            'fault_classes': sorted(set(fault_class(k) for k in kinds)),
            'info_only': c.info_only, 'continue': c.cont, 'ignore_expect': c.ignore, 'filter': c.filt is not None,
            'inner_signature_in_damaged': any(d is not None and S.SIG in b[1:] for d, b in zip(c.dmg, c.cur))}
-    if why.startswith('a non-library exception'):
-        items, out = scan_fresh(c, len(c.cur) + 4)
-        if out == 'err:other':
-            sig.update(S.LAST_EXC)
+    items, out = scan_fresh(c, len(c.cur) + 4)
+    # a length-damaged message that still "parses" and is delivered with MORE bytes than its (intact) declared total
+    # length: nothing in Decoder.process compares the two, and the excess swallows the following messages
+    by_off = {o: i for i, o in enumerate(c.offs)}
+    sig['overlong_damaged_delivery'] = any(
+        o in by_off and c.dmg[by_off[o]] is not None and len(it) > len(c.cur[by_off[o]])
+        for it, o in zip(items, locate_items(c.s, items)))
+    if why.startswith('a non-library exception') and out == 'err:other':
+        sig.update(S.LAST_EXC)
     return sig
 
 
@@ -743,10 +754,10 @@ def run_histories(ctx, drv, treq, rng, pool, variants, nsessions):
         prior = set()
         for j, op in enumerate(ops):
             k = op.key()
+            got = run_op(shared, op)        # before the fresh run: nothing else happens between two operations of a session
             if k not in fresh_memo:
                 fresh_memo[k] = run_op(Decoder(), op)
             fresh = fresh_memo[k]
-            got = run_op(shared, op)
             vname = (op.variant[0] if op.variant else 'valid') if op.kind != 'scan' else 'dmg%d' % sum(1 for d in op.case.dmg if d)
             ctx.case({'session': si, 'op': j, 'kind': op.kind, 'data': op.data.hex()[:40], 'len': len(op.data), 'flags': op.flags(),
                       'cont': op.cont, 'variant': vname, 'prior': sorted(prior)}, nontrivial=j >= 1,
@@ -765,8 +776,7 @@ def run_histories(ctx, drv, treq, rng, pool, variants, nsessions):
                 hist = shrink_history(ops, j, fresh)
                 why += '; history needed: %s' % [h.flags() + ':' + ('ok' if run_op(Decoder(), h).out in ('ok', 'done') else 'failed') for h in hist]
                 ctx.violation('history: ' + why, history_replay(hist, op, got, fresh, why),
-                              signature={'stage': 'history', 'op': op.flags(), 'shared': got.out, 'fresh': fresh.out,
-                                         'needs': sorted(set(h.flags() for h in hist))})
+                              signature={'stage': 'history', 'op': op.flags(), 'shared': got.out, 'fresh': fresh.out})
                 break       # the Decoder object is no longer in a defined state
             if k not in judged:
                 judged.add(k)
@@ -861,7 +871,7 @@ def run(ctx):
     t0 = time.time()
     pool, variants = run_streams(ctx, drv, treq, ctx.rng('streams'), 16 if quick else 160)
     t1 = time.time()
-    run_histories(ctx, drv, treq, ctx.rng('history'), pool, variants, 60 if quick else 600)
+    run_histories(ctx, drv, treq, ctx.rng('history'), pool, variants, 240 if quick else 2400)
     th = time.time() - t1
     t1 = time.time()
     run_truncation(ctx, drv, treq, ctx.rng('trunc'), 40 if quick else 400, 4 if quick else 30)
